@@ -2,19 +2,19 @@
 from props import answers
 
 THEOREMS = ["InfOCF.C03_main", "InfOCF.C03_wless_spec", "InfOCF.C03_spec_form", "InfOCF.C03_refuse", "InfOCF.algWCode_eq_algW", "InfOCF.algW_eq_specW"]
-RULE = ("random strongly consistent bases x 6 queries x {rc2, z3}; non-trivial = contingent query, >= 2 layers, W answer differs from Z or p; distinct by (base, query)")
+RULE = ("random strongly consistent bases (half of them defaults-with-exceptions structures with several incomparable minimal falsification sets per layer) x 6 queries x {rc2, z3}; non-trivial = contingent query, >= 2 layers and a tie (a minimal falsification set shared by verifying and falsifying worlds) at the top layer; distinct by (base, query)")
 ASSUMPTIONS = ["world enumeration bounds the correspondence to <= 7 atoms; the theorem has no bound"]
 CONFIGS = [("system-w", "rc2"), ("system-w", "z3")]
 
 
 def nontrivial(case, info, qk, row):
-    return qk == "contingent" and (info["layers"] or 0) >= 2
+    return qk == "contingent" and (info["layers"] or 0) >= 2 and len(row) > 4 and row[4] >= 1
 
 
 def run(ctx):
     count = 200 if ctx.tier == "quick" else 4000
     cases = answers.load_corpus("C03")
-    cases += answers.gen_cases(ctx, count, (1, 6), (1, 7), [False])
+    cases += answers.gen_cases(ctx, count, (1, 6), (1, 7), [False], ties=0.5)
     answers.run_cases(ctx, cases, CONFIGS, nontrivial)
 
 
